@@ -1,5 +1,7 @@
 /-
-  C03 — property theorems.  Everything here is about arbitrary field lists (any length).
+  C03 — property theorems.  Everything here is about arbitrary field lists (any length), arbitrary
+  ancestor chains (any depth, any mix of hand-written / builtin / generated `__eq__`/`__ne__`) and
+  arbitrary hashing histories of the operands.
 -/
 import AttrsModel.Spec.C03
 
@@ -41,33 +43,189 @@ theorem chain_ne_exc (fs : List Field) : (chain fs).1 ≠ .exc := by
       · simp only [chain, h, if_true]; exact ih
       · cases h' : outcome f <;> simp_all [chain, Res.ofOutcome, Outcome.isTruthy]
 
+/-! ### what C resolves once attrs has generated equality -/
+
+/-- **C03_generated_shadows_mro** (1): whatever the body of C held and whatever any ancestor — at any
+    depth — defines, C resolves the generated `__eq__` … -/
+theorem lookupEq_gen (c : Case) (hg : generates c = true) : lookupEq (mroC c) = .generated := by
+  simp [mroC, classLayer, hg, lookupEq]
+
+/-- … and (2) the shared `__ne__` helper: an inherited or hand-written `__ne__` is never reached. -/
+theorem lookupNe_gen (c : Case) (hg : generates c = true) : lookupNe (mroC c) = .generated := by
+  simp [mroC, classLayer, hg, lookupNe]
+
+/-- MRO lookup as written in the model = "the first class that has the name". -/
+theorem lookupEq_resolved (l : List Layer) : lookupEq l = resolved (l.map (·.eq)) := by
+  induction l with
+  | nil => rfl
+  | cons a rest ih =>
+    cases h : a.eq <;> simp_all [lookupEq, resolved, List.find?, Slot.present]
+
+theorem lookupNe_resolved (l : List Layer) : lookupNe l = resolved (l.map (·.ne)) := by
+  induction l with
+  | nil => rfl
+  | cons a rest ih =>
+    cases h : a.ne <;> simp_all [lookupNe, resolved, List.find?, Slot.present]
+
 /-- **C03_eq_iff**: same class ⇒ `__eq__` is truthy iff every eq-participating field compares truthy. -/
-theorem C03_eq_iff (c : Case) (h : sameClass c.rhs = true) :
+theorem C03_eq_iff (c : Case) (hg : generates c = true) (h : sameClass c.rhs = true) :
     (eqMethod c).1.isTruthy = true ↔
       ∀ f ∈ c.fields, participates f = true → (outcome f).isTruthy = true := by
-  simp only [eqMethod, h, if_true, chain_truthy_iff, List.all_eq_true, List.mem_filter]
+  simp only [eqMethod, lookupEq_gen c hg, h, if_true, chain_truthy_iff, List.all_eq_true, List.mem_filter]
   constructor
   · intro H f hf hp; exact H f ⟨hf, hp⟩
   · intro H f hf; exact H f hf.1 hf.2
 
-/-- **C03_ne_negation**: `__ne__` is NotImplemented iff `__eq__` is, else the boolean negation. -/
-theorem C03_ne_negation (c : Case) :
-    neMethod c = (match (eqMethod c).1 with | .NI => .NI | r => Res.ofBool (!r.isTruthy)) := by
-  rfl
+/-- **C03_ne_negation**: whatever `__ne__` the ancestors or the class body bring along, `C.__ne__` is
+    NotImplemented iff `C.__eq__` is, else the boolean negation — and it compares what `__eq__` compares. -/
+theorem C03_ne_negation (c : Case) (hg : generates c = true) :
+    neMethod c = (derive (eqMethod c).1, (eqMethod c).2) := by
+  simp [neMethod, lookupNe_gen c hg]
 
-/-- **C03_other_class_notimpl**: any operand of another class — sub- and superclasses included —
-    makes both methods return NotImplemented, without comparing anything; `==` is then False. -/
-theorem C03_other_class_notimpl (c : Case) (h : sameClass c.rhs = false) :
-    (eqMethod c) = (.NI, []) ∧ neMethod c = .NI ∧ eqOp c = .F ∧ neOp c = .T := by
-  have hid : (c.rhs == Rhs.identical) = false := by
-    cases hr : c.rhs <;> simp_all [sameClass]
-  simp [eqMethod, neMethod, eqOp, neOp, h, hid, Res.ofBool]
+theorem derive_spec (r : Res) :
+    derive r = (match r with | .NI => .NI | r => Res.ofBool (!r.isTruthy)) := by
+  cases r <;> rfl
 
-/-- **C03_nonparticipating_irrelevant**: two cases whose eq-participating fields coincide give
-    the same results and the same comparisons, whatever the other fields hold. -/
-theorem C03_nonparticipating_irrelevant (c d : Case) (hr : c.rhs = d.rhs)
-    (hf : c.fields.filter participates = d.fields.filter participates) : model c = model d := by
-  simp [model, eqMethod, neMethod, eqOp, neOp, hr, hf]
+/-- **C03_other_class_notimpl**: any operand of another class — sub- and superclasses included — makes
+    both methods return NotImplemented without comparing anything; the operators are then answered by
+    Python's default (the other operand's own hand-written method if its class resolves one, else identity). -/
+theorem C03_other_class_notimpl (c : Case) (hg : generates c = true) (h : sameClass c.rhs = false) :
+    eqMethod c = (.NI, []) ∧ neMethod c = (.NI, []) ∧ eqOp c = pyDefaultEq c ∧ neOp c = pyDefaultNe c := by
+  have he : eqMethod c = (.NI, []) := by simp [eqMethod, lookupEq_gen c hg, h]
+  have hn : neMethod c = (.NI, []) := by rw [C03_ne_negation c hg, he]; rfl
+  refine ⟨he, hn, ?_, ?_⟩
+  · simp only [eqOp, h, he, reflEq, pyDefaultEq, lookupEq_resolved, dispatch]
+    cases resolved ((rhsMro c).map (·.eq)) with
+    | user o => cases o <;> cases c.rhs == Rhs.sub <;> simp [Res.ofOutcome]
+    | absent => cases c.rhs == Rhs.sub <;> simp
+    | generated => cases c.rhs == Rhs.sub <;> simp
+  · simp only [neOp, h, hn, reflNe, reflEq, pyDefaultNe, lookupEq_resolved, lookupNe_resolved, dispatch]
+    cases resolved ((rhsMro c).map (·.ne)) with
+    | user o => cases o <;> cases c.rhs == Rhs.sub <;> simp [Res.ofOutcome]
+    | absent =>
+      cases resolved ((rhsMro c).map (·.eq)) with
+      | user o => cases o <;> cases c.rhs == Rhs.sub <;>
+          simp [Res.ofOutcome, derive, Res.ofBool, Res.isTruthy, Outcome.isTruthy]
+      | absent => cases c.rhs == Rhs.sub <;> simp [derive]
+      | generated => cases c.rhs == Rhs.sub <;> simp [derive]
+    | generated =>
+      cases resolved ((rhsMro c).map (·.eq)) with
+      | user o => cases o <;> cases c.rhs == Rhs.sub <;>
+          simp [Res.ofOutcome, derive, Res.ofBool, Res.isTruthy, Outcome.isTruthy]
+      | absent => cases c.rhs == Rhs.sub <;> simp [derive]
+      | generated => cases c.rhs == Rhs.sub <;> simp [derive]
+
+/-- no class along the right operand's MRO hand-writes a comparison (it resolves `object`'s or generated ones) -/
+def noHandWritten (l : List Layer) : Bool :=
+  l.all (fun y => (match y.eq with | .user _ => false | _ => true) &&
+                  (match y.ne with | .user _ => false | _ => true))
+
+theorem resolved_eq_not_user (l : List Layer) (h : noHandWritten l = true) (o : Outcome) :
+    resolved (l.map (·.eq)) ≠ .user o := by
+  induction l with
+  | nil => simp [resolved]
+  | cons a rest ih =>
+    simp only [noHandWritten, List.all_cons, Bool.and_eq_true] at h
+    have ih' := ih (by simpa [noHandWritten] using h.2)
+    cases ha : a.eq <;> simp_all [resolved, List.find?, Slot.present]
+
+theorem resolved_ne_not_user (l : List Layer) (h : noHandWritten l = true) (o : Outcome) :
+    resolved (l.map (·.ne)) ≠ .user o := by
+  induction l with
+  | nil => simp [resolved]
+  | cons a rest ih =>
+    simp only [noHandWritten, List.all_cons, Bool.and_eq_true] at h
+    have ih' := ih (by simpa [noHandWritten] using h.2)
+    cases ha : a.ne <;> simp_all [resolved, List.find?, Slot.present]
+
+/-- **C03_other_class_identity**: if moreover the other operand's class hand-writes no comparison of its
+    own, `==` is False and `!=` is True (identity of two different objects). -/
+theorem C03_other_class_identity (c : Case) (hg : generates c = true) (h : sameClass c.rhs = false)
+    (hw : noHandWritten (rhsMro c) = true) : eqOp c = .F ∧ neOp c = .T := by
+  obtain ⟨_, _, h3, h4⟩ := C03_other_class_notimpl c hg h
+  have e := resolved_eq_not_user _ hw
+  have n := resolved_ne_not_user _ hw
+  rw [h3, h4]
+  constructor
+  · unfold pyDefaultEq
+    split
+    · rename_i o hr; exact absurd hr (e o)
+    · rfl
+  · unfold pyDefaultNe
+    split
+    · rename_i o hn; exact absurd hn (n o)
+    · split
+      · rename_i o hr; exact absurd hr (e o)
+      · rfl
+
+/-- non-vacuity of the previous two: a list subclass compared with a plain list of equal content -/
+example : ∃ c, generates c = true ∧ sameClass c.rhs = false ∧ eqOp c = .T ∧ neOp c = .F :=
+  ⟨{ fields := [], rhs := .super, clsEq := .unset, autoDetect := false,
+     own := ⟨.absent, .absent⟩, ancestors := [⟨.user .T, .user .F⟩], subLayer := ⟨.absent, .absent⟩,
+     foreignLayer := ⟨.absent, .absent⟩,
+     hist := ⟨false, false, false, [], []⟩ }, by decide⟩
+
+/-- for operands of the same class the results are a function of the `and` chain over the participating
+    fields alone -/
+theorem model_same_class (c d : Case) (hc : generates c = true) (hd : generates d = true)
+    (hr : c.rhs = d.rhs) (hs : sameClass c.rhs = true)
+    (hch : chain (c.fields.filter participates) = chain (d.fields.filter participates)) :
+    model c = model d := by
+  have hs' : sameClass d.rhs = true := hr ▸ hs
+  have e : eqMethod c = eqMethod d := by
+    simp [eqMethod, lookupEq_gen, hc, hd, hs, hs', hch]
+  simp [model, eqOp, neOp, C03_ne_negation, hc, hd, hs, e, ← hr]
+
+/-- **C03_nonparticipating_irrelevant** (also: the generated pair shadows the whole MRO; history is
+    irrelevant): for operands of the same class, two cases whose eq-participating fields coincide give the
+    same results and the same comparisons — whatever the other fields hold (values, `hash=` arguments, hash
+    codes), whatever the class body and the ancestors define under `__eq__`/`__ne__`, whichever operands
+    were hashed (and cached) before and whichever fields were re-assigned after that. -/
+theorem C03_nonparticipating_irrelevant (c d : Case) (hc : generates c = true) (hd : generates d = true)
+    (hr : c.rhs = d.rhs) (hs : sameClass c.rhs = true)
+    (hf : c.fields.filter participates = d.fields.filter participates) : model c = model d :=
+  model_same_class c d hc hd hr hs (by rw [hf])
+
+/-- the case with every class fact and all history wiped: plain class, nothing hashed, nothing re-assigned -/
+def bare (c : Case) : Case :=
+  { fields := c.fields.map (fun f => { f with hash := .unset, hashDiffers := false }),
+    rhs := c.rhs, clsEq := .t, autoDetect := false, own := ⟨.absent, .absent⟩, ancestors := [],
+    subLayer := c.subLayer, foreignLayer := c.foreignLayer,
+    hist := ⟨false, false, false, [], []⟩ }
+
+@[simp] theorem participates_hash (f : Field) (a : Flag) (b : Bool) :
+    participates { f with hash := a, hashDiffers := b } = participates f := rfl
+
+theorem filter_hash (fs : List Field) :
+    (fs.map (fun f => { f with hash := Flag.unset, hashDiffers := false })).filter participates
+      = (fs.filter participates).map (fun f => { f with hash := Flag.unset, hashDiffers := false }) := by
+  induction fs with
+  | nil => rfl
+  | cons f rest ih =>
+    simp only [List.map_cons, List.filter_cons, participates_hash]
+    split <;> simp_all
+
+@[simp] theorem outcome_hash (f : Field) (a : Flag) (b : Bool) :
+    outcome { f with hash := a, hashDiffers := b } = outcome f := rfl
+@[simp] theorem tag_hash (f : Field) (a : Flag) (b : Bool) :
+    tag { f with hash := a, hashDiffers := b } = tag f := rfl
+
+theorem chain_hash (fs : List Field) :
+    chain (fs.map (fun f => { f with hash := Flag.unset, hashDiffers := false })) = chain fs := by
+  induction fs with
+  | nil => rfl
+  | cons f rest ih =>
+    cases rest with
+    | nil => simp [chain]
+    | cons g rest =>
+      simp only [List.map_cons] at ih ⊢
+      simp only [chain, ih, outcome_hash, tag_hash]
+
+/-- **C03_history_irrelevant**: same-class results are those of the bare class with fresh operands. -/
+theorem C03_history_irrelevant (c : Case) (hg : generates c = true) (hs : sameClass c.rhs = true) :
+    model c = model (bare c) :=
+  model_same_class c (bare c) hg (by simp [generates, bare]) rfl hs
+    (by simp only [bare, filter_hash, chain_hash])
 
 /-- operands evaluated by the chain: up to and including the first falsy one -/
 def upToFirstFalsy : List Field → List String
@@ -117,11 +275,18 @@ theorem filter_sameObj (b : Bool) (fs : List Field) :
     in particular a value unequal to itself (NaN) makes `x == x` false. -/
 theorem C03_uses_eq_not_identity (c : Case) (b : Bool) :
     model { c with fields := c.fields.map (fun f => { f with sameObj := b }) } = model c := by
-  simp only [model, eqMethod, neMethod, eqOp, neOp, filter_sameObj, chain_sameObj]
+  have e : eqMethod { c with fields := c.fields.map (fun f => { f with sameObj := b }) } = eqMethod c := by
+    simp only [eqMethod, mroC, classLayer, generates, filter_sameObj, chain_sameObj]
+    rfl
+  simp only [model, neMethod, eqOp, neOp, e]
+  rfl
 
 theorem nan_witness :
     (model { fields := [{ name := "a", cmp := .unset, eq := .unset, raw := .F, keyed := .F,
-                          sameObj := true }], rhs := .identical }).eqOp = .F := by decide
+                          sameObj := true, hash := .unset, hashDiffers := false }],
+             rhs := .identical, clsEq := .unset, autoDetect := false, own := ⟨.absent, .absent⟩,
+             ancestors := [], subLayer := ⟨.absent, .absent⟩, foreignLayer := ⟨.absent, .absent⟩,
+             hist := ⟨false, false, false, [], []⟩ }).eqOp = .F := by decide
 
 theorem upToFirstFalsy_mem (fs : List Field) :
     ∀ t ∈ upToFirstFalsy fs, ∃ f ∈ fs, tag f = t := by
@@ -137,9 +302,11 @@ theorem upToFirstFalsy_mem (fs : List Field) :
         exact ⟨g, List.mem_cons_of_mem _ hg, hgt⟩
     · simp at ht; exact ⟨f, List.mem_cons_self, ht.symm⟩
 
-/-- **C03_model_meets_spec**: the model satisfies the declarative specification on every case
-    (no well-formedness or known-deviation hypothesis is needed for this property). -/
-theorem C03_model_meets_spec (c : Case) : spec c (model c) = true := by
+/-- **C03_model_meets_spec**: whenever attrs generates equality, the model satisfies the declarative
+    specification (no known-deviation hypothesis is needed for this property). -/
+theorem C03_model_meets_spec (c : Case) (hw : wf c = true) : spec c (model c) = true := by
+  have hg : generates c = true := by
+    simp only [wf, Bool.and_eq_true] at hw; exact hw.2
   by_cases h : sameClass c.rhs = true
   · have hni := chain_ne_NI (c.fields.filter participates)
     have hne := chain_ne_exc (c.fields.filter participates)
@@ -147,18 +314,29 @@ theorem C03_model_meets_spec (c : Case) : spec c (model c) = true := by
     have hs := C03_short_circuit (c.fields.filter participates)
     have hmem := upToFirstFalsy_mem (c.fields.filter participates)
     generalize hr : chain (c.fields.filter participates) = r at hni hne ht hs
-    have htr : (List.all r.2 fun t => (List.filter participates c.fields).any fun f => tag f == t) = true := by
-      rw [hs, List.all_eq_true]
+    have htr : onlyParticipating c r.2 = true := by
+      rw [onlyParticipating, hs, List.all_eq_true]
       intro t htm
       obtain ⟨f, hf, hft⟩ := hmem t htm
       exact List.any_eq_true.2 ⟨f, hf, by simp [hft]⟩
     rcases r with ⟨v, tr⟩
     simp only at hni hne ht htr
-    simp only [spec, h, if_true, model, eqMethod, neMethod, eqOp, neOp, hr, allEqual, htr]
+    have he : eqMethod c = (v, tr) := by simp [eqMethod, lookupEq_gen c hg, h, hr]
+    simp only [spec, h, if_true, model, eqOp, neOp, C03_ne_negation c hg, he, allEqual, htr]
     rw [← ht]
-    cases v <;> simp_all [Res.isTruthy, Res.ofBool]
+    cases v <;> simp_all [Res.isTruthy, Res.ofBool, derive]
   · have h' : sameClass c.rhs = false := by simpa using h
-    obtain ⟨h1, h2, h3, h4⟩ := C03_other_class_notimpl c h'
+    obtain ⟨h1, h2, h3, h4⟩ := C03_other_class_notimpl c hg h'
     simp [spec, h', model, h1, h2, h3, h4]
+
+/-- non-vacuity: a well-formed case whose class body hand-writes both methods and whose ancestors bring
+    a builtin's pair — equality is still generated (`eq=True`) and the specification is met. -/
+example : ∃ c, wf c = true ∧ c.own = ⟨.user .F, .user .F⟩ ∧ c.ancestors ≠ [] ∧ spec c (model c) = true :=
+  ⟨{ fields := [{ name := "a", cmp := .unset, eq := .unset, raw := .T, keyed := .F,
+                  sameObj := false, hash := .t, hashDiffers := true }],
+     rhs := .same, clsEq := .t, autoDetect := true, own := ⟨.user .F, .user .F⟩,
+     ancestors := [⟨.user .T, .user .F⟩], subLayer := ⟨.absent, .absent⟩,
+     foreignLayer := ⟨.absent, .absent⟩, hist := ⟨true, true, true, [], ["a"]⟩ },
+   by decide, rfl, by decide, by decide⟩
 
 end Attrs.C03
